@@ -296,6 +296,16 @@ func (f *Frame) addObl(kind, label, hyp, goal, text string) {
 	if goal == "true" {
 		return
 	}
+	// a conjunction is split into one obligation per conjunct (smaller queries, sharper reports)
+	if strings.HasPrefix(goal, "(and ") && kind != "cover" {
+		parts := splitTop(goal[5 : len(goal)-1])
+		if len(parts) > 1 && len(parts) <= 12 {
+			for i, p := range parts {
+				f.addObl(kind, fmt.Sprintf("%s.%d", label, i+1), hyp, p, text)
+			}
+			return
+		}
+	}
 	f.g.addObl(&Obligation{Name: f.oblName(kind, label), Kind: kind, Fn: fnDisplay(f.top.fn), Label: label, Hyp: hyp, Goal: goal,
 		Pos: f.g.fset.Position(f.curPos), Text: text})
 }
@@ -360,6 +370,23 @@ func (f *Frame) specEnv(cur *State, at *ssa.BasicBlock, atIdx int, phiSubst map[
 	}
 	e.locals = func(name string) (T, bool) {
 		return f.resolveLocal(name, at, atIdx, phiSubst, e)
+	}
+	if li == nil {
+		// outside loop invariants (post-conditions): the function's only range-over-map loop
+		e.mapIter = func() *mapRange {
+			var only *mapRange
+			n := 0
+			for _, mr := range f.rangeIt {
+				if mr != nil && !mr.str {
+					only = mr
+					n++
+				}
+			}
+			if n == 1 {
+				return only
+			}
+			return nil
+		}
 	}
 	if li != nil {
 		e.mapIter = func() *mapRange {
